@@ -219,15 +219,25 @@ def run(ctx):
             incs = [(b, t) for b, t in path_calls(c, p) if "AF" in (site_effects(F, c, b)["acquire"] | set(c.held_before_term(b))) and t["res"] == "item" and t.get("rlocal")]
             if full and full[0][2] == ("Full",):
                 nfull += 1
-                if len(incs) != 1:
+                payload = ("field", ("variant", ev, "Full"), "0")
+                whole = [(b, t) for b, t in incs if any(same_value(c.op_origin(a), payload) for a in t["args"])]
+                pieces = [(b, t) for b, t in incs if (b, t) not in whole and any(
+                    mentions(c.op_origin(a), lambda s: s[0] == "call" and any(k in s[1] for k in ("chunks", "::iter", "split", "::next", "into_iter")) and mentions(s, lambda y: strip_site(y) == strip_site(payload))) for a in t["args"])]
+                piecewise = any(mentions(c.origin_call(b, t), lambda s: strip_site(s) == strip_site(payload)) and any(k in t["callee"] for k in ("chunks", "::iter", "split", "into_iter"))
+                                for b, t in path_calls(c, p))
+                if len(incs) < 1 and not piecewise:
+                    bad.append(("received buffer not applied", p))
+                    continue
+                if len(incs) < 1:
+                    continue        # iterating over pieces of the buffer: zero iterations only for an empty buffer
+                if whole and len(incs) != 1:
                     bad.append(("received buffer applied %d times" % len(incs), p))
                     continue
-                b, t = incs[0]
-                payload = ("field", ("variant", ev, "Full"), "0")
-                if not any(same_value(c.op_origin(a), payload) for a in t["args"]):
+                if not whole and len(pieces) != len(incs):
                     bad.append(("the applied hashes are not the received buffer", p))
-                if "AF" not in c.held_before_term(b):
-                    bad.append(("buffer applied without the sketch lock", p))
+                for b, t in incs:
+                    if "AF" not in c.held_before_term(b):
+                        bad.append(("buffer applied without the sketch lock", p))
             elif incs:
                 bad.append(("sketch touched without a Full event", p))
         ctx.check(not bad and nfull >= 1, "R15.5", "%s|apply-once" % c.name,
@@ -239,7 +249,7 @@ def run(ctx):
         ctx.touch(f)
         for nid in F.insts_of(f.name):
             e = eff[nid]
-            ctx.check(not e["block"] and "AF" not in e["acquire"] and e["nonblock"] <= {"try_select", "selected_send"}, "R15.6",
+            ctx.check(not e["block"] and "AF" not in e["acquire"] and e["nonblock"] <= {"try_select", "selected_send", "try_send", "try_recv"}, "R15.6",
                       "%s|read-never-waits" % f.name,
                       "a read API reaches no blocking channel/thread operation and never takes the sketch lock", f.where(),
                       "block=%s acquire=%s nonblock=%s" % (sorted(e["block"]), sorted(e["acquire"]), sorted(e["nonblock"])))
